@@ -232,6 +232,10 @@ RetGuards(c, e) ==
         { G("C10", e.code \in {"OK", "ALREADY_EXISTS"}),
           G("C10", e.code = "OK" => ((\E w \in W : w.k = "m.ct" /\ w.name = p.name /\ w.ok) /\ e.body.name = p.name)),
           G("C10", e.code = "ALREADY_EXISTS" => \E w \in W : w.k = "m.ct" /\ w.name = p.name /\ ~w.ok) }
+      [] p.op = "Other" ->
+        \* an RPC the emulator does not implement: whatever status it is answered with (the broken
+        \* connection is judged in MalGuards), a request that is not carried out changes nothing
+        { G("C17", (Solo(c) /\ e.code # "OK") => ~ChangesState(W)) }
       [] p.op = "GetTopic" ->
         { G("C10", e.code \in {"OK", "NOT_FOUND"}),
           G("C10", e.code = "OK" => ((TopicLookups(W, p.name) \ {None} # {}) /\ e.body.name = p.name)),
